@@ -12,14 +12,22 @@
   successful update signed with key `pk` the record's public key *is* `pk` (whether or not that
   was the record's key before), its node id is `pk`'s, and the signature is the signer's answer.
 
-  Hypotheses (never axioms): `S.Lawful` — laws of a key type; `CallOK` — the arguments are in the
-  range the Rust types allow (`Op.WF`) and, if the signer is asked, its answer verifies under its
-  own public key over the payload it was asked to sign (`SigOK`).
+  Hypotheses (never axioms):
+   * `S.Lawful` — three laws of a key type (`pub_inj`, `key_not_reserved`, `pub_local`).  They are
+     PROVED for the four built-in key types (`k256S_lawful`, `libsecpS_lawful`, `edS_lawful`,
+     `combS_lawful`, `Proofs/SchemeLemmas.lean`); the last section instantiates the theorems for
+     them, so for k256 / rust-secp256k1 / ed25519 / CombinedKey no law is assumed.
+   * `CallOK` — per call: the arguments are in the range the Rust types allow (`Op.WF`), the
+     signer's public key and its entry name are shorter than 2^64 bytes (`KeyOK`; every real key
+     is 32 or 33 bytes long, and the bound holds for every key a record can hold,
+     `k256S_keyOK_of_enrToPublic` …) and, if the signer is asked, its answer verifies under its
+     own public key over the payload it was asked to sign (`SigOK`).
   Model: `step`, `run`, `Builder.build`.  Lemmas: `Proofs/StepLemmas.lean` (§4–§7),
-  `Proofs/CodecTheorems.lean` (`decode_valid`, `encode_decode`).
+  `Proofs/CodecTheorems.lean` (`decode_valid`, `encode_decode`), `Proofs/SchemeLemmas.lean`.
 -/
 import EnrVerif.Proofs.StepLemmas
 import EnrVerif.Proofs.ToyScheme
+import EnrVerif.Proofs.SchemeLemmas
 
 namespace EnrVerif
 
@@ -112,6 +120,76 @@ theorem run_handed_out (S : Scheme) (hL : S.Lawful) (r : Record) (cs : List (Cal
   have h := run_valid S hL r cs hv hr
   exact ⟨valid_redecodes S _ h, valid_verifies S _ h, valid_size S _ h, valid_id S _ h⟩
 
+/-! ### the built-in key types
+
+  `k256S` = `k256::ecdsa::SigningKey`, `libsecpS` = `secp256k1::SecretKey`,
+  `edS` = `ed25519_dalek::SigningKey`, `combS` = `CombinedKey` (`Model/Schemes.lean`).  The laws are
+  proved, so the invariant holds along every history whose calls are `CallOK`. -/
+
+theorem run_valid_k256 (r : Record) (cs : List (Call k256S)) (hv : Valid k256S r)
+    (hr : RunOK k256S r cs) : Valid k256S (run k256S r cs) := run_valid k256S k256S_lawful r cs hv hr
+
+theorem run_valid_libsecp (r : Record) (cs : List (Call libsecpS)) (hv : Valid libsecpS r)
+    (hr : RunOK libsecpS r cs) : Valid libsecpS (run libsecpS r cs) :=
+  run_valid libsecpS libsecpS_lawful r cs hv hr
+
+theorem run_valid_ed (r : Record) (cs : List (Call edS)) (hv : Valid edS r)
+    (hr : RunOK edS r cs) : Valid edS (run edS r cs) := run_valid edS edS_lawful r cs hv hr
+
+theorem run_valid_comb (r : Record) (cs : List (Call combS)) (hv : Valid combS r)
+    (hr : RunOK combS r cs) : Valid combS (run combS r cs) := run_valid combS combS_lawful r cs hv hr
+
+/-- `build` with a built-in key type; the signer's key only has to be shorter than 2^64 bytes. -/
+theorem build_valid_k256 (b : Builder) (pk : Bytes) (o : Option Bytes) (r : Record) (hb : b.WF)
+    (hlen : pk.length < 2 ^ 64)
+    (hso : ∀ b', Builder.prepare k256S b pk = .ok b' → SigOK k256S pk b'.rlpContent o)
+    (h : Builder.build k256S b pk o = .ok r) :
+    Valid k256S r ∧ k256S.enrToPublic r.content = .ok pk ∧ r.nodeId = nodeIdOf k256S pk :=
+  build_valid k256S k256S_lawful b pk o r hb (k256S_keyOK pk hlen) hso h
+
+theorem build_valid_libsecp (b : Builder) (pk : Bytes) (o : Option Bytes) (r : Record) (hb : b.WF)
+    (hlen : pk.length < 2 ^ 64)
+    (hso : ∀ b', Builder.prepare libsecpS b pk = .ok b' → SigOK libsecpS pk b'.rlpContent o)
+    (h : Builder.build libsecpS b pk o = .ok r) :
+    Valid libsecpS r ∧ libsecpS.enrToPublic r.content = .ok pk ∧ r.nodeId = nodeIdOf libsecpS pk :=
+  build_valid libsecpS libsecpS_lawful b pk o r hb (libsecpS_keyOK pk hlen) hso h
+
+theorem build_valid_ed (b : Builder) (pk : Bytes) (o : Option Bytes) (r : Record) (hb : b.WF)
+    (hlen : pk.length < 2 ^ 64)
+    (hso : ∀ b', Builder.prepare edS b pk = .ok b' → SigOK edS pk b'.rlpContent o)
+    (h : Builder.build edS b pk o = .ok r) :
+    Valid edS r ∧ edS.enrToPublic r.content = .ok pk ∧ r.nodeId = nodeIdOf edS pk :=
+  build_valid edS edS_lawful b pk o r hb (edS_keyOK pk hlen) hso h
+
+theorem build_valid_comb (b : Builder) (pk : Bytes) (o : Option Bytes) (r : Record) (hb : b.WF)
+    (hlen : pk.length < 2 ^ 64)
+    (hso : ∀ b', Builder.prepare combS b pk = .ok b' → SigOK combS pk b'.rlpContent o)
+    (h : Builder.build combS b pk o = .ok r) :
+    Valid combS r ∧ combS.enrToPublic r.content = .ok pk ∧ r.nodeId = nodeIdOf combS pk :=
+  build_valid combS combS_lawful b pk o r hb (combS_keyOK pk hlen) hso h
+
+/-- An update signed with the record's own key: the `KeyOK` part of `CallOK` holds by itself
+    (the key read back from a record is 33 resp. 32 bytes long). -/
+theorem callOK_own_key_k256 (r : Record) (op : Op k256S) (pk : Bytes) (o : Option Bytes)
+    (hown : k256S.enrToPublic r.content = .ok pk) (hwf : op.WF)
+    (hso : ∀ m, signRequest k256S r op pk = some m → SigOK k256S pk m o) :
+    CallOK k256S r ⟨op, pk, o⟩ := ⟨hwf, k256S_keyOK_of_enrToPublic _ pk hown, hso⟩
+
+theorem callOK_own_key_libsecp (r : Record) (op : Op libsecpS) (pk : Bytes) (o : Option Bytes)
+    (hown : libsecpS.enrToPublic r.content = .ok pk) (hwf : op.WF)
+    (hso : ∀ m, signRequest libsecpS r op pk = some m → SigOK libsecpS pk m o) :
+    CallOK libsecpS r ⟨op, pk, o⟩ := ⟨hwf, libsecpS_keyOK_of_enrToPublic _ pk hown, hso⟩
+
+theorem callOK_own_key_ed (r : Record) (op : Op edS) (pk : Bytes) (o : Option Bytes)
+    (hown : edS.enrToPublic r.content = .ok pk) (hwf : op.WF)
+    (hso : ∀ m, signRequest edS r op pk = some m → SigOK edS pk m o) :
+    CallOK edS r ⟨op, pk, o⟩ := ⟨hwf, edS_keyOK_of_enrToPublic _ pk hown, hso⟩
+
+theorem callOK_own_key_comb (r : Record) (op : Op combS) (pk : Bytes) (o : Option Bytes)
+    (hown : combS.enrToPublic r.content = .ok pk) (hwf : op.WF)
+    (hso : ∀ m, signRequest combS r op pk = some m → SigOK combS pk m o) :
+    CallOK combS r ⟨op, pk, o⟩ := ⟨hwf, combS_keyOK_of_enrToPublic _ pk hown, hso⟩
+
 /-! ### Non-vacuity: the toy scheme is lawful; concrete records and calls satisfy the hypotheses -/
 
 example : tinyS.Lawful := tinyS_lawful
@@ -164,5 +242,17 @@ example : Valid tinyS (run tinyS r0 [call1, call2 r1, call3]) :=
 #print axioms valid_size
 #print axioms valid_id
 #print axioms run_handed_out
+#print axioms run_valid_k256
+#print axioms run_valid_libsecp
+#print axioms run_valid_ed
+#print axioms run_valid_comb
+#print axioms build_valid_k256
+#print axioms build_valid_libsecp
+#print axioms build_valid_ed
+#print axioms build_valid_comb
+#print axioms callOK_own_key_k256
+#print axioms callOK_own_key_libsecp
+#print axioms callOK_own_key_ed
+#print axioms callOK_own_key_comb
 
 end EnrVerif
